@@ -216,7 +216,8 @@ func uniq(xs []string) []string {
 // keyIdentity: numerically equal keys in different notations address the same item.
 func (p *c12) keyIdentity(x *res, adapter string, ctx *runner.Ctx) {
 	groups := [][]string{{"1", "1.0", "01", "1e0", "1.00", "10E-1"}, {"0", "-0", "0.0", "0e5"}, {"100", "1E2", "1e+2", "100.0"}, {"0.5", ".5", "5e-1"}}
-	for _, asRange := range []bool{false, true} {
+	for _, variant := range []string{"hash", "range", "hash-of-composite"} {
+		asRange := variant == "range"
 		for _, g := range groups {
 			for _, w := range g {
 				for _, rd := range g {
@@ -228,6 +229,10 @@ func (p *c12) keyIdentity(x *res, adapter string, ctx *runner.Ctx) {
 					if asRange {
 						spec = adapt.TableSpec{Name: "tbl12", Hash: "h", Range: "r", RangeT: "N", Billing: "PAY_PER_REQUEST"}
 						mk = func(n string) val.Item { return val.Item{"h": val.Str("p"), "r": val.Num(n)} }
+					}
+					if variant == "hash-of-composite" {
+						spec = adapt.TableSpec{Name: "tbl12", Hash: "h", HashT: "N", Range: "r", Billing: "PAY_PER_REQUEST", Indexes: []adapt.IndexSpec{{Name: "gsin", Hash: "g", HashT: "N", Range: "h", RangeT: "N"}}}
+						mk = func(n string) val.Item { return val.Item{"h": val.Num(n), "r": val.Str("s")} }
 					}
 					cl, _, ds := freshClient(adapter, spec)
 					if ds != nil {
@@ -244,12 +249,9 @@ func (p *c12) keyIdentity(x *res, adapter string, ctx *runner.Ctx) {
 					del := cl.Do(adapt.Op{Kind: adapt.OpDelete, Table: spec.Name, Key: mk(w)})
 					scan3 := cl.Do(adapt.Op{Kind: adapt.OpScan, Table: spec.Name})
 					x.r.Evals += 8
-					x.fp(true, "keyid|%s|%v|%s|%s", adapter, asRange, w, rd)
+					x.fp(true, "keyid|%s|%v|%s|%s", adapter, variant, w, rd)
 					wit := map[string]interface{}{"adapter": adapter, "spec": spec, "written": w, "read": rd}
-					pos := "hash"
-					if asRange {
-						pos = "range"
-					}
+					pos := variant
 					_ = upd
 					_ = put2
 					_ = del
